@@ -21,6 +21,7 @@ RULE = ('(a) Hypothesis-generated namespaces from the richest API generator (eve
         'deprecation tags; attributes) emitted by the real pipeline, then read with GIRParser and written back; (b) every *.gir '
         'under tests/scanner and gir/. non-trivial = the namespace holds >= 5 distinct node kinds and a doc string with a '
         'character that needs XML escaping; distinct = hash of the case')
+RULE = RULE + ' ' + 'Besides the byte fixpoint, a small projection of the written and the read model (kinds, C identifiers, named types/transfer/direction of every value, property flags and default values) must agree.'
 ASSUMPTIONS = [
     'substrate P: cmodel.to_symbols mirrors scannerparser.y (calibrated by tools/calibrate_p.py)',
     'hand-written gir/*.gir are only required to be a fixpoint from their first write on (they carry comments and layout the writer does not reproduce)',
